@@ -8,10 +8,12 @@ from props.common import account, diff_run
 
 COARS = ac.COARSENINGS
 DRIVERS = ["amgd_%s@poison" % c for c in COARS] + ["amg_%s@poison" % c for c in COARS] + ["amgd_%s@asan" % c for c in COARS] + \
-          ["own", "own@asan", "ll2", "ll2@poison", "ll2@asan", "ub@poison", "relaxfill@poison", "relaxfill@asan"]
+          ["own", "own@asan", "ll2", "ll2@poison", "ll2@asan", "ub@poison", "relaxfill@poison", "relaxfill@asan", "amgns@poison", "amgns@asan"]
 EXTRA_FLAGS = {"@poison": ["-DVQ_POISON"],
                "@asan": ["-fsanitize=address,undefined", "-fno-sanitize-recover=all", "-fno-omit-frame-pointer", "-g"],
-               "own@asan": ["-DOWN_NO_TRACKER"]}
+               "own@asan": ["-DOWN_NO_TRACKER"],
+               # reads behind size() of a std::vector are reported even inside its capacity (tentative_prolongation reuses Bpart)
+               "amgns@asan": ["-D_GLIBCXX_SANITIZE_VECTOR"]}
 # the amg poison/sanitizer sections compare implementation runs with each other and do not call a model;
 # the model driver of this property is the extracted crs::own_data state machine (coq/Own.v) together with the
 # extracted array-level models of coq/LowLevel2*.v (ocaml/own/ops_ll2.ml)
@@ -550,6 +552,163 @@ def run_rf(ctx, lines):
                               theorem="C10: AddressSanitizer/UBSan report or crash in a relaxation constructor / sweep on a valid SPD matrix"))
     return fails
 
+# ------------------------------------------------------------------ C10: near-null-space vectors + pointwise aggregates
+# AMG constructions WITH user near-null-space vectors (harness/drv_amgns.cpp): coarsening {aggregation, smoothed_aggregation,
+# smoothed_aggr_emin} x aggr.block_size {1,2,3} x nullspace.cols {1,2,3,4} on matrices whose strength graph is NOT symmetric
+# (coupling p -> q weak, q -> p strong: plain aggregation leaves one-node / small aggregates), disconnected chains, isolated
+# nodes, small grids; >= 3 levels where the sizes allow it.  The only guard between such aggregates and a QR block with
+# fewer rows than columns (qr.R(ii,jj) then reads behind the scratch vector) is remove_small_aggregates: coq/SmallAggr.v,
+# theorems C10_smallaggr_*.  Builds: amgns@poison (allocator fills fresh blocks + 64 bytes of slack + released blocks; four
+# fills, bit patterns compared) and amgns@asan (ASan + UBSan + _GLIBCXX_SANITIZE_VECTOR, 1 and 3 OpenMP threads).
+NS_COARS = ["aggregation", "smoothed_aggregation", "smoothed_aggr_emin"]
+NS_RELAX = ["damped_jacobi", "spai0", "gauss_seidel"]
+NS_FILLS = ["00", "FF", "AA", "rand"]
+
+def _ns_nodes(r, kind, nn):
+    """node graph: (number of nodes, coordinates, undirected edges)"""
+    if kind == "grid":
+        w = r.choice([2, 3, 4]); h = max(2, nn // w); nn = w * h
+        xy = [(F(i % w), F(i // w)) for i in range(nn)]
+        ed = [(i, i + 1) for i in range(nn) if (i + 1) % w] + [(i, i + w) for i in range(nn - w)]
+        return nn, xy, ed
+    # disconnected chains (length 1 = an isolated node)
+    xy = []; ed = []; p = 0; c = 0
+    while p < nn:
+        ln = min(nn - p, r.choice([1, 2, 3, 5, 8, 13, 20]))
+        for i in range(ln):
+            xy.append((F(i + 3 * c), F(i % 3, 2) + 7 * c))
+            if i: ed.append((p + i - 1, p + i))
+        p += ln; c += 1
+    return nn, xy, ed
+
+def _ns_matrix(r, nn, bs, ed, diag, p_weak, weak_dir=None):
+    """bs x bs blocks per node pair; the couplings p -> q and q -> p are weak (1/8) / strong (2) independently of each other,
+    so the strength graph is not symmetric; rows sorted, values dyadic"""
+    rows = [dict() for _ in range(nn * bs)]
+    def put(p, q, w):
+        for k in range(bs):
+            rows[p * bs + k][q * bs + k] = -w
+            if bs > 1 and r.random() < 0.4: rows[p * bs + k][q * bs + (k + 1) % bs] = -w / 4
+    for (p, q) in ed:
+        for (a, b) in ((p, q), (q, p)):
+            weak = (r.random() < p_weak) if weak_dir is None else ((a, b) in weak_dir)
+            put(a, b, F(1, 8) if weak else F(2))
+    for p in range(nn):
+        for k in range(bs):
+            for j in range(bs):
+                rows[p * bs + k][p * bs + j] = F(diag) if j == k else F(1, 2)
+    return [sorted(rw.items()) for rw in rows]
+
+def _ns_B(r, nn, bs, cols, xy, kind):
+    """near-null-space vectors, row-major n x cols: rigid-body-like modes (translations per unknown of a node, then
+    coordinate-dependent columns) or random dyadic numbers"""
+    out = []
+    for p in range(nn):
+        x, y = xy[p]
+        for k in range(bs):
+            for c in range(cols):
+                if kind == "rigid":
+                    if c < bs: v = F(1) if c == k else F(0)
+                    elif c == bs: v = (-y if k == 0 else x if k == 1 else F(0)) if bs > 1 else x
+                    else: v = (x * y if k == 0 else y if k == 1 else x) if bs > 1 else x * x + y
+                else:
+                    v = F(r.randint(-8, 8), 4)
+                out.append(v)
+    return out
+
+def ns_cases(tier, seed):
+    from vcheck import fmt_vec
+    r = random.Random(seed * 1000 + 510)
+    out = []; k = 0
+    def add(co, rx, bs, cols, ce, ml, eps, npre, npost, n, rows, B, f):
+        nonlocal k
+        out.append("N%d amgns %s %s %d %d %d %d %s %d %d %s %s %s" % (k, co, rx, bs, cols, ce, ml, eps, npre, npost,
+                   _crs(n, n, rows), fmt_vec(B), fmt_vec(f))); k += 1
+    # fixed input: two chains of 20 nodes with two unknowns per node and three rigid body modes; the coupling node 1 -> node 2
+    # of a chain is weak, 2 -> 1 is strong: node 1 ends up alone in its aggregate (2 unknowns < 3 vectors, must be removed)
+    for co in NS_COARS:
+        nn = 40
+        xy = [(F(i % 20 + 3 * (i // 20)), F(i % 20 % 3, 2) + 7 * (i // 20)) for i in range(nn)]
+        ed = [(i, i + 1) for i in range(nn - 1) if i != 19]
+        rows = _ns_matrix(r, nn, 2, ed, 4, 0, weak_dir=set([(1, 2), (21, 22)]))
+        add(co, "damped_jacobi", 2, 3, 2, 5, "2/25", 1, 1, nn * 2, rows, _ns_B(r, nn, 2, 3, xy, "rigid"),
+            [F(4 + (i % 5), 4) for i in range(nn * 2)])
+    reps = 8 if tier == "quick" else 60
+    for rep in range(reps):
+        for co in NS_COARS:
+            for bs in (1, 2, 3):
+                for cols in (1, 2, 3, 4):
+                    kind = r.choice(["chains", "chains", "grid"])
+                    nn = r.choice([6, 10, 16, 24]) if bs > 1 else r.choice([8, 16, 30, 48])
+                    nn, xy, ed = _ns_nodes(r, kind, nn)
+                    diag = 5 if kind == "chains" else 9
+                    eps = r.choice(["2/25", "1/8", "1/4"] if kind == "chains" else ["2/25", "1/8"])
+                    rows = _ns_matrix(r, nn, bs, ed, diag, r.choice([0.1, 0.3, 0.5]))
+                    n = nn * bs
+                    add(co, NS_RELAX[k % 3], bs, cols, r.choice([0, 1, 2, 3]), r.choice([3, 4, 5]), eps,
+                        r.choice([1, 1, 2]), r.choice([1, 0]), n, rows,
+                        _ns_B(r, nn, bs, cols, xy, r.choice(["rigid", "random"])), [F(r.randint(-8, 8), 4) for _ in range(n)])
+    return out
+
+def run_ns(ctx, lines):
+    def site(l): return "amgns/" + l.split(" ", 4)[2]
+    def klass(l):
+        tk = l.split(" ", 6); return "nullspace cols=%s block_size=%s" % (tk[5], tk[4])
+    def complete(exe, env, first, shards):
+        """a sanitizer report / crash loses the rest of its shard: re-run the unanswered cases"""
+        res = first
+        for _round in range(40):
+            missing = [l for l in lines if res.get(l.split(" ", 1)[0]) is None]
+            if not missing: break
+            more = ctx["run_driver"](ctx["cpp"][exe], missing, env_extra=env, shards=min(32, len(missing)), timeout=600)
+            if not more: break
+            res.update(more)
+        return res
+    res = {}
+    for fl in NS_FILLS:
+        env = {"VQ_POISON_FILL": fl}
+        res[fl] = complete("amgns@poison", env, ctx["run_driver"](ctx["cpp"]["amgns@poison"], lines, env_extra=env, shards=8, timeout=600), 8)
+    def nontrivial(op, payload, impl_out):
+        # at least one coarsening step was made by the policy and amg::apply returned a vector
+        return impl_out is not None and " T " in impl_out and " X [" in impl_out
+    account(ctx, lines, res[NS_FILLS[0]], nontrivial)
+    st = ctx["stats"]
+    st["ns_three_levels"] = sum(1 for l in lines if (res[NS_FILLS[0]].get(l.split(" ", 1)[0]) or "").split(" ; ")[0].count(" T ") >= 2)
+    fails = []
+    for l in lines:
+        cid, op = l.split(" ", 2)[:2]
+        outs = [res[fl].get(cid) for fl in NS_FILLS]
+        ctx["stats"]["oracle_checks"] += 1
+        if any(o is None or o.startswith(("CRASH", "UNSUPPORTED")) for o in outs):
+            fails.append(dict(kind="counterexample", case=l, impl=str(outs)[:1500], model=None, op=op, size=len(l), build="amgns-poison", site=site(l),
+                              input_class=klass(l), theorem="C10: amg construction with near-null-space vectors crashed under the poisoning allocator (fills %s)" % NS_FILLS))
+        elif len(set(outs)) != 1:
+            j = next(i for i in range(1, len(outs)) if outs[i] != outs[0])
+            a, b = outs[j], outs[0]
+            d = next((i for i in range(min(len(a), len(b))) if a[i] != b[i]), min(len(a), len(b)))
+            fails.append(dict(kind="counterexample", case=l, impl="...%s" % a[max(0, d - 300):d + 300], model="...%s" % b[max(0, d - 300):d + 300],
+                              op=op, size=len(l), build="amgns-poison", site=site(l), input_class=klass(l),
+                              theorem="C10: the hierarchy built from near-null-space vectors (P, R, coarse near-null space, coarse matrices) or amg::apply depends on "
+                                      "prior heap contents (bit patterns differ, heap fill %s vs %s): a cell that was never written -- e.g. qr.R(ii,jj) behind a QR block "
+                                      "with fewer rows than columns, which remove_small_aggregates must prevent (theorems C10_smallaggr_*) -- or a released block is read"
+                                      % (NS_FILLS[j], NS_FILLS[0])))
+    seen = set(f["case"] for f in fails)
+    for nt in ("1", "3"):
+        env = {"ASAN_OPTIONS": "detect_leaks=1:abort_on_error=0", "UBSAN_OPTIONS": "print_stacktrace=1", "OMP_NUM_THREADS": nt, "OMP_WAIT_POLICY": "PASSIVE"}
+        san = complete("amgns@asan", env, ctx["run_driver"](ctx["cpp"]["amgns@asan"], lines, env_extra=env, shards=16 if nt == "1" else 6, timeout=600), 16)
+        for l in lines:
+            cid, op = l.split(" ", 2)[:2]
+            o = san.get(cid)
+            ctx["stats"]["oracle_checks"] += 1
+            if (o is None or o.startswith(("CRASH", "UNSUPPORTED"))) and l not in seen:
+                seen.add(l)
+                fails.append(dict(kind="counterexample", case=l, impl=o, model=None, op=op, size=len(l), build="amgns-asan", site=site(l), input_class=klass(l),
+                                  theorem="C10: AddressSanitizer/UBSan report (heap-buffer-overflow / container-overflow = read behind size() of a std::vector) or crash "
+                                          "while building / applying an amg hierarchy with near-null-space vectors (%s OpenMP thread(s))" % nt))
+    return fails
+
+def _is_ns(l): return l.split(" ", 2)[1:2] == ["amgns"]
+
 def _is_rf(l): return l.split(" ", 2)[1:2] == ["rf"]
 
 def _is_ub(l): return l.split(" ", 2)[1:2] and l.split(" ", 2)[1].startswith("ub_")
@@ -569,11 +728,15 @@ def run(ctx, cases_override=None):
     rf_override = [l for l in (cases_override or []) if _is_rf(l)]
     if cases_override and len(rf_override) == len(cases_override):
         return run_rf(ctx, rf_override)
+    ns_override = [l for l in (cases_override or []) if _is_ns(l)]
+    if cases_override and len(ns_override) == len(cases_override):
+        return run_ns(ctx, ns_override)
     own_fails = [] if cases_override else run_own(ctx, own_cases(ctx["tier"], ctx["seed"]))
     ll2_fails = [] if cases_override else run_ll2(ctx, ll2_cases(ctx["tier"], ctx["seed"]))
     ub_fails = [] if cases_override else run_ub(ctx, ub_cases(ctx["tier"], ctx["seed"]))
     rf_fails = [] if cases_override else run_rf(ctx, rf_cases(ctx["tier"], ctx["seed"]))
-    return own_fails + ll2_fails + ub_fails + rf_fails + run_amg(ctx, cases_override)
+    ns_fails = [] if cases_override else run_ns(ctx, ns_cases(ctx["tier"], ctx["seed"]))
+    return own_fails + ll2_fails + ub_fails + rf_fails + ns_fails + run_amg(ctx, cases_override)
 
 def run_amg(ctx, cases_override=None):
     cases = make_cases(ctx["tier"], ctx["seed"])
